@@ -98,6 +98,11 @@ pub struct Builder { pub max: usize, pub lfl: usize, pub be: bool }
 impl LengthDelimitedCodec {
     #[verifier::external_body]
     pub fn builder() -> (r: Builder) ensures r.max == TOKIO_UTIL_DEFAULT_MAX_FRAME, r.lfl == 4, r.be == true { unimplemented!() }
+    // (the codec's own accessors for its limit, which edits to the framing reach for)
+    #[verifier::external_body]
+    pub fn max_frame_length(&self) -> (r: usize) ensures r == self.max { unimplemented!() }
+    #[verifier::external_body]
+    pub fn set_max_frame_length(&mut self, v: usize) ensures final(self).max == v, final(self).lfl == old(self).lfl, final(self).be == old(self).be { unimplemented!() }
 }
 impl Builder {
     #[verifier::external_body]
@@ -122,6 +127,11 @@ impl<T: AsyncWrite> FramedWrite<T, LengthDelimitedCodec> {
     #[verifier::external_body]
     pub fn get_mut(&mut self) -> (r: &mut T)
         ensures *r == old(self).inner, final(self).inner == *final(r), final(self).codec == old(self).codec { unimplemented!() }
+    #[verifier::external_body]
+    pub fn encoder(&self) -> (r: &LengthDelimitedCodec) ensures *r == self.codec { unimplemented!() }
+    #[verifier::external_body]
+    pub fn encoder_mut(&mut self) -> (r: &mut LengthDelimitedCodec)
+        ensures *r == old(self).codec, final(self).codec == *final(r), final(self).inner == old(self).inner { unimplemented!() }
     // encode (length_delimited.rs:608): `if n > max_frame_len { return Err(frame size too big) }`, then length head + payload
     #[verifier::external_body]
     pub async fn send(&mut self, item: Bytes) -> (r: Result<()>)
@@ -145,6 +155,11 @@ impl<T: AsyncRead> FramedRead<T, LengthDelimitedCodec> {
     #[verifier::external_body]
     pub fn get_mut(&mut self) -> (r: &mut T)
         ensures *r == old(self).inner, final(self).inner == *final(r), final(self).codec == old(self).codec, final(self).buffered == old(self).buffered { unimplemented!() }
+    #[verifier::external_body]
+    pub fn decoder(&self) -> (r: &LengthDelimitedCodec) ensures *r == self.codec { unimplemented!() }
+    #[verifier::external_body]
+    pub fn decoder_mut(&mut self) -> (r: &mut LengthDelimitedCodec)
+        ensures *r == old(self).codec, final(self).codec == *final(r), final(self).inner == old(self).inner, final(self).buffered == old(self).buffered { unimplemented!() }
     pub open spec fn input(&self) -> Seq<u8> { self.buffered@ + self.inner.remaining() }
     // decode (length_delimited.rs:522): `if n > max_frame_len { Err }`; EOF with a partial frame is an error, EOF with nothing is None
     #[verifier::external_body]
